@@ -8,6 +8,7 @@
   request fails.  Concrete examples are evaluated by the kernel (`with_unfolding_all decide`).
 -/
 import FwdVerif.Lemmas.C05
+import FwdVerif.Model.C05Gen
 
 namespace FwdVerif
 namespace C05
@@ -1114,6 +1115,16 @@ theorem c05_hostname_memo_witness :
     -- the other visiting order sends the first tenant's tunnels to the second one's port
     (connectDialersMemo keySchemeHostname (famUpstreams.take 2).reverse).map (·.hop) =
       [.viaProxy .http (bs "gw.test:3129"), .viaProxy .http (bs "gw.test:3129")] := by
+  with_unfolding_all decide
+
+/-! ### Tie to the source: the built-in localhost names
+
+`Model/C05Gen.lean` is regenerated on every run from the `localhost: []string{…}` initialiser of
+`http_proxy.go`.  The names `isLocalhost` starts with in the model (before the hosts-file aliases are
+appended) are that list, in that order. -/
+
+theorem c05_generated_builtin_localhost_is_model :
+    C05Gen.builtinLocalhost.map Req.bs = builtinLocalhost := by
   with_unfolding_all decide
 
 end C05
